@@ -6,6 +6,7 @@ CONSTANTS
   KidsRoot = 2
   KidsRest = 2
   Schemes = {"ord"}
+  Homes = {"own"}
   CodeFixes = {}
 INVARIANT RepairedRefinesH
 INVARIANT AsIsExplained
